@@ -49,6 +49,7 @@ type RunOut struct {
 	MustExit     bool              `json:"mustexit,omitempty"`
 	Log          []string          `json:"log,omitempty"`
 	Extra        int               `json:"extra,omitempty"` // additional evaluations performed inside this run (e.g. crash points)
+	InnerNT      []uint64          `json:"innernt,omitempty"` // hashes of the non-trivial inner evaluations (distinct cases inside one run)
 }
 
 // Property is one registered check.
@@ -388,6 +389,9 @@ func (a *agg) absorb(path string) (lastIdx int) {
 		if out.NonTrivial {
 			a.nontrivial++
 			a.distinct[out.CaseHash] = true
+		}
+		for _, h := range out.InnerNT {
+			a.distinct[h] = true
 		}
 		a.steps += out.Steps
 		a.sw += out.Switches
